@@ -203,6 +203,21 @@ def run_check(P, tier="quick", seed=0, max_search_s=None):
         for b in bad:
             if b < len(items):
                 mism.append((g, items[b][0]))
+    # 3b. informational groups: on how many cases does a decidable hypothesis of a theorem hold (evaluated by the kernel; never a failure)
+    hyp_info = {}
+    if hasattr(P, "coq_info"):
+        by_info = {}
+        for i, (case, obs, orc, k) in enumerate(records):
+            if orc is not None:
+                continue
+            lit = P.coq_info(case, obs)
+            if lit is not None:
+                by_info.setdefault(lit[0], []).append((i, lit[1]))
+        for g, items in by_info.items():
+            bad, err = core.coq_mismatches(P.pid, P.groups[g], [l for _, l in items])
+            if err:
+                coq_err = err
+            hyp_info[g] = dict(checker=P.groups[g].checker, evaluated=len(items), holds=len(items) - len(bad))
     core.cleanup(P.pid)
 
     # 4. verdicts
@@ -333,6 +348,8 @@ def run_check(P, tier="quick", seed=0, max_search_s=None):
         exhaustive=False,
     )
     cov.update(P.extra_coverage())
+    if hyp_info:
+        cov["theorem_hypotheses_evaluated_in_coq"] = hyp_info
     ev = dict(property_id=P.pid, tier=tier, seed=seed, level=P.level, coverage=cov,
               assumptions=list(P.assumptions), wall_s=round(time.time() - t0, 2), violations=(1 if exit_code else 0))
     os.makedirs(core.EVID, exist_ok=True)
